@@ -263,10 +263,19 @@ class xfunc_count(xfunc):
                     raise ValueError(
                         "Cannot determine counts with no dimensions, weights, or N."
                     )
-                counts[:] = self.weights.sum()
-                valid_counts[:] = numpy.count_nonzero(self.validity, axis=0)
-                if not self.ignore_missing:
-                    missing_counts[:] = numpy.count_nonzero(~self.validity, axis=0)
+                if self.weights.shape:
+                    counts[:] = self.weights.sum()
+                    valid_counts[:] = numpy.count_nonzero(self.validity, axis=0)
+                    if not self.ignore_missing:
+                        missing_counts[:] = numpy.count_nonzero(
+                            ~self.validity, axis=0
+                        )
+                else:
+                    # Scalar weight. Broadcast over the N rows.
+                    counts[:] = self.weights * self.N
+                    valid_counts[:] = self.N if self.validity else 0
+                    if not self.ignore_missing:
+                        missing_counts[:] = 0 if self.validity else self.N
             else:
                 size = counts.shape[0]
                 if self.weights.shape:
